@@ -446,9 +446,12 @@ def run(chk, repo, tier):
             for c, pol in _lits(p.conds):
                 named |= _three(c)
         okv = bool(refused) and bool(stores) and {'none', 'pupil', 'image'} <= named and not ({'tilt', 'transform'} & named)
+        if not okv and refused and stores and not named and any(a_[0] == 'sym' and '.' in str(a_[1]) for p in stores for c, _pol, _n in p.conds
+                                                                 for a_ in nf.value_atoms(c)):
+            okv = None          # membership in a module-level collection that is not evaluated
         chk.ob('C08-e', 'D-guard', wset.key, 'the wavefront type setter admits none / pupil / image and refuses everything else with TypeError',
                okv if (refused or stores) else None,
-               '' if okv else ('no path raises TypeError: any plane type is stored' if not refused else
+               '' if okv else 'undecided: the admitted types are a module constant that is not evaluated' if okv is None else ('no path raises TypeError: any plane type is stored' if not refused else
                                f'the stored type is tested against {sorted(named)}'), wset.loc())
     # a new wavefront has the type it is given - on every path of the constructor, whatever its other arguments are: every
     # product is built through the constructor (Wavefront.empty), so a type derived from, say, the focal length rewrites the
